@@ -858,6 +858,14 @@ func (rule *RuleExpression) checkMatrixExpression(expr *String) *ObjectType {
 		return NewEmptyObjectType()
 	}
 
+	// Do not modify the type of the expression in place since it may be shared. For example,
+	// `matrix: ${{ github }}` yields the object in BuiltinGlobalVariableTypes table
+	props := make(map[string]ExprType, len(matTy.Props))
+	for n, p := range matTy.Props {
+		props[n] = p
+	}
+	matTy = &ObjectType{Props: props, Mapped: matTy.Mapped}
+
 	// Consider properties in include section elements since 'include' section adds matrix values
 	incTy, ok := matTy.Props["include"]
 	if ok {
